@@ -38,11 +38,12 @@ type fnInfo struct {
 	loops    []*loopInfo
 	domEdges map[*ssa.BasicBlock][]edge // block -> branch edges that dominate it
 	// feasible-path reachability (see pathState), cached per cut
-	reachNoEdge  map[edge]map[*ssa.BasicBlock]bool
-	reachNoBlock map[*ssa.BasicBlock]map[*ssa.BasicBlock]bool
-	reachAll     map[*ssa.BasicBlock]bool
-	phiLive      map[*ssa.Phi]map[*ssa.BasicBlock]bool // control-relevant phis -> blocks at which they are still needed
-	guardCache   map[*ssa.BasicBlock][]guard
+	reachNoEdge   map[edge]map[*ssa.BasicBlock]bool
+	reachNoBlock  map[*ssa.BasicBlock]map[*ssa.BasicBlock]bool
+	reachAll      map[*ssa.BasicBlock]bool
+	phiLive       map[*ssa.Phi]map[*ssa.BasicBlock]bool // control-relevant phis -> blocks at which they are still needed
+	guardCache    map[*ssa.BasicBlock][]guard
+	tooManyStates bool // the feasible-path enumeration exceeded its budget once: plain reachability is used from then on
 }
 
 func (c *Ctx) info(fn *ssa.Function) *fnInfo {
@@ -220,10 +221,34 @@ func searchTest(cond ssa.Value, pol bool) (coll ssa.Value, pred *ssa.Function, f
 			pred, _ = x.Fn.(*ssa.Function)
 		}
 	}
+	pred = boundMethod(pred)
 	if pred == nil || len(pred.Blocks) == 0 {
 		return nil, nil, false, false
 	}
 	return call.Common().Args[0], pred, found, true
+}
+
+// boundMethod: for the synthetic wrapper of a method value (x.m used as a function) the method itself, else f.
+func boundMethod(f *ssa.Function) *ssa.Function {
+	if f == nil || !strings.HasPrefix(f.Synthetic, "bound method wrapper") || len(f.Blocks) != 1 {
+		return f
+	}
+	for _, in := range f.Blocks[0].Instrs {
+		if call, ok := in.(*ssa.Call); ok {
+			if m := call.Call.StaticCallee(); m != nil {
+				return m
+			}
+		}
+	}
+	return f
+}
+
+// predElem: the parameter of a predicate that receives the element (the last one; a method has its receiver first).
+func predElem(pred *ssa.Function) ssa.Value {
+	if len(pred.Params) == 0 {
+		return nil
+	}
+	return pred.Params[len(pred.Params)-1]
 }
 
 // trueGuardSets: for a predicate function, one guard set per way it can return true (the guards of the return plus,
@@ -259,7 +284,8 @@ func closuresOf(f *ssa.Function) []*ssa.Function {
 		for _, b := range out[i].Blocks {
 			for _, in := range b.Instrs {
 				if mc, ok := in.(*ssa.MakeClosure); ok {
-					if g, _ := mc.Fn.(*ssa.Function); g != nil && !seen[g] && len(g.Blocks) > 0 {
+					g, _ := mc.Fn.(*ssa.Function)
+					if g = boundMethod(g); g != nil && !seen[g] && len(g.Blocks) > 0 {
 						seen[g] = true
 						out = append(out, g)
 					}
@@ -776,6 +802,10 @@ func (c *Ctx) edgeEndsInError(e edge) (bool, string) {
 			return
 		}
 		seen[k] = true
+		if len(seen) > feasibleStateBudget {
+			bad = "too many path states to enumerate from " + c.bpos(start)
+			return
+		}
 		for _, in := range b.Instrs {
 			if site, ok := in.(ssa.CallInstruction); ok && calleeName(site.Common()) == "os.Exit" {
 				exits++
@@ -1252,6 +1282,9 @@ func (fi *fnInfo) feasibleReach(cut *edge, avoid *ssa.BasicBlock) map[*ssa.Basic
 	if start == avoid {
 		return out
 	}
+	if fi.tooManyStates {
+		return reach(start, cutSet(cut), avoidSet(avoid))
+	}
 	work := []item{{start, newPathStateFor(fi.fn)}}
 	for len(work) > 0 {
 		it := work[len(work)-1]
@@ -1261,6 +1294,12 @@ func (fi *fnInfo) feasibleReach(cut *edge, avoid *ssa.BasicBlock) map[*ssa.Basic
 			continue
 		}
 		seen[k] = true
+		// a function whose branches are this independent has too many path states to enumerate: fall back to plain
+		// reachability for it, which can only make an edge dominate less (fewer guards are recognised, never more)
+		if len(seen) > feasibleStateBudget {
+			fi.tooManyStates = true
+			return reach(start, cutSet(cut), avoidSet(avoid))
+		}
 		out[it.b] = true
 		for i, s := range it.b.Succs {
 			if cut != nil && cut.from == it.b && cut.idx == i {
@@ -1277,6 +1316,22 @@ func (fi *fnInfo) feasibleReach(cut *edge, avoid *ssa.BasicBlock) map[*ssa.Basic
 		}
 	}
 	return out
+}
+
+const feasibleStateBudget = 20000
+
+func cutSet(e *edge) map[edge]bool {
+	if e == nil {
+		return nil
+	}
+	return map[edge]bool{*e: true}
+}
+
+func avoidSet(b *ssa.BasicBlock) map[*ssa.BasicBlock]bool {
+	if b == nil {
+		return nil
+	}
+	return map[*ssa.BasicBlock]bool{b: true}
 }
 
 func (fi *fnInfo) feasibleAll() map[*ssa.BasicBlock]bool {
@@ -1334,6 +1389,10 @@ func feasiblyReaches(fi *fnInfo, e edge, target *ssa.BasicBlock) bool {
 			return
 		}
 		seen[k] = true
+		if len(seen) > feasibleStateBudget {
+			found = true // too many path states: assume reachable (the plain answer)
+			return
+		}
 		for i, s := range b.Succs {
 			_, _, nps, ok := ps.branch(b, i)
 			if !ok {
